@@ -9,7 +9,20 @@ for pd in benign/${BENIGN_GLOB:-*}/; do
   d=$(mktemp -d /tmp/ben.XXXXXX)
   rsync -a --exclude .git /repo/ "$d/repo/"
   ( cd "$d/repo" && patch -p1 -s < "/verif/$pd/patch.diff" ) || { echo "$name: patch does not apply (tree moved on)"; rm -rf "$d"; continue; }
+  # checks that cannot be affected by the files the patch touches are skipped (BENIGN_ALL_CHECKS=1 runs everything):
+  # sm4 -> C05-C07, C09-C11, C17, C18; sm3 -> C01, C04, C10, C13, C17-C19; sm2 and utils -> all but the sm3/sm4-only checks
+  touched=$(grep '^+++ ' "/verif/$pd/patch.diff" | sed 's|^+++ b/||' | cut -d/ -f1 | sort -u | tr '\n' ' ')
+  rel=""
+  for t in $touched; do
+    case $t in
+      sm4) rel="$rel C05 C06 C07 C09 C10 C11 C17 C18";;
+      sm3) rel="$rel C01 C04 C10 C13 C17 C18 C19";;
+      sm2|utils) rel="$rel C01 C02 C03 C08 C10 C12 C13 C14 C15 C16 C17 C18 C19 C20";;
+      *) rel="$rel $ids";;
+    esac
+  done
   for c in $ids; do
+    if [ -z "$BENIGN_ALL_CHECKS" ] && ! echo " $rel " | grep -q " $c "; then continue; fi
     VX_REPO="$d/repo" VX_NO_EVIDENCE=1 VX_REPLAY_DIR="$d/replays" ./run $c quick > $d/o.txt 2>&1; rc=$?
     n=$((n+1))
     if [ $rc -ne 0 ]; then
@@ -17,6 +30,7 @@ for pd in benign/${BENIGN_GLOB:-*}/; do
     fi
   done
   rm -rf "$d"
+  echo "done $name (runs so far $n, alarms so far $bad)"
 done
 echo "benign corpus: $n check runs, $bad alarms"
 [ $bad -eq 0 ]
